@@ -5,7 +5,7 @@ import astral
 from astral import Observer, LocationInfo
 from astral.location import Location
 import astral.geocoder as geo
-from common import F, I, S, E, N, Case, call
+from common import F, FS, I, S, E, N, Case, call
 
 DEG, PRIME, DPRIME = "°", "′", "″"
 DMS_ALPHABET = list("0123456789") + [DEG, PRIME, "'", DPRIME, '"', "N", "S", "E", "W",
@@ -79,9 +79,9 @@ def elev_tok(v):
 
 
 def elev_state_tok(e):
-    if isinstance(e, tuple):
-        return "I1 %s %s" % (F(e[0]), F(e[1]))
-    return "I0 %s %s" % (F(e), F(0.0))
+    if type(e) is tuple and len(e) == 2:
+        return "I1 %s %s" % (FS(e[0]), FS(e[1]))
+    return "I0 %s %s" % (FS(e), F(0.0))
 
 
 def gen_dms(rng, n, tier="quick"):
@@ -90,7 +90,7 @@ def gen_dms(rng, n, tier="quick"):
         lim = rng.choice([None, 90.0, 180.0, 90.0, 180.0, 0.0, 45.5])
         st, r = call(astral.dms_to_float, v, lim)
         yield Case("dms_to_float", "dms_to_float %s %s" % (arg_tok(v), N if lim is None else F(lim)),
-                   F(r) if st == "ok" else E(r), {"dms": repr(v), "limit": lim})
+                   FS(r) if st == "ok" else E(r), {"dms": repr(v), "limit": lim})
 
 
 def dms_exhaustive(chunk=None):
@@ -105,7 +105,7 @@ def dms_exhaustive(chunk=None):
             for lim in (None, 90.0, 180.0):
                 st, v = call(astral.dms_to_float, txt, lim)
                 yield Case("dms_to_float", "dms_to_float %s %s" % (S(txt), N if lim is None else F(lim)),
-                           F(v) if st == "ok" else E(v), {"dms": txt, "limit": lim})
+                           FS(v) if st == "ok" else E(v), {"dms": txt, "limit": lim})
 
 
 def dms_short_strings(maxlen=3):
@@ -149,7 +149,7 @@ def gen_observer(rng, n, tier="quick"):
                     s2, r2 = call(setattr, o, {"lat": "latitude", "lon": "longitude",
                                                "elev": "elevation"}[f], v)
                     outs.append(N if s2 == "ok" else E(r2))
-                exp = "%s %s %s %s" % (F(o.latitude), F(o.longitude), elev_state_tok(o.elevation),
+                exp = "%s %s %s %s" % (FS(o.latitude), FS(o.longitude), elev_state_tok(o.elevation),
                                        " ".join(outs))
             yield Case("Observer", req, exp.strip(),
                        {"init": [repr(la), repr(lo), repr(el)], "ops": [[f, repr(v)] for f, v in ops]})
@@ -178,7 +178,7 @@ def gen_observer(rng, n, tier="quick"):
                 for f, v in ops:
                     s2, r2 = call(setattr, o, {"lat": "latitude", "lon": "longitude"}[f], v)
                     outs.append(N if s2 == "ok" else E(r2))
-                exp = "%s %s %s" % (F(o.latitude), F(o.longitude), " ".join(outs))
+                exp = "%s %s %s" % (FS(o.latitude), FS(o.longitude), " ".join(outs))
             yield Case("LocationInfo" if kind == 1 else "Location", req, exp.strip(),
                        {"init": [repr(la), repr(lo)], "ops": [[f, repr(v)] for f, v in ops]})
 
@@ -194,7 +194,7 @@ COORDS = ["51" + DEG + "30'N", "0" + DEG + "7'W", "24" + DEG + "28'N", "54" + DE
 
 
 def rec_tok(r):
-    return "%s %s %s %s %s" % (S(r.name), S(r.region), S(r.timezone), F(r.latitude), F(r.longitude))
+    return "%s %s %s %s %s" % (S(r.name), S(r.region), S(r.timezone), FS(r.latitude), FS(r.longitude))
 
 
 def group_tok(g):
